@@ -69,5 +69,31 @@ def run(ck: Check):
         if ex3.lines:
             ex.lines, ex.impl, ex.meta = ex3.lines, ex3.impl, ex3.meta
             ex.diff()
+    # the SAME strategy object used for two consecutive runs on different files of the same atom count (a cache
+    # keyed by anything but the contents would go stale)
+    from runner import impl_session
+    for i in range(60 if quick else 600):
+        k = r.randint(3, 7)
+        st = r.choice(["minimize-around", "minimize-balanced", "minimize-balanced"])
+        steps = []
+        for _ in range(2):
+            parts = [r.choice(BR[:6]) for _ in range(k)]
+            orig = b"".join(parts)
+            salt, pct = bytes([r.randrange(256)]), r.choice([40, 70, 90])
+
+            def f(c, orig=orig, salt=salt, pct=pct):
+                return c == orig or hashlib.sha256(salt + c).digest()[0] % 100 < pct
+            steps.append({"strategy": st, "cfg": {}, "atom": "line", "file0": orig, "f": f,
+                          "verdict": lambda kk, data, f=f: "Y" if f(data) else "N"})
+        runs = impl_session(steps)
+        for step, run_ in zip(steps, runs):
+            ck.count("session")
+            ck.nontrivial(("session", st, step["file0"], i))
+            ctx = {"strategy": st, "cfg": {}, "tc": run_.loaded, "file0": step["file0"], "verdicts": "",
+                   "clock": [], "atom": "line", "exc_class": "TestRaised", "load": True,
+                   "session": [s_["file0"].hex() for s_ in steps], "note": "same strategy object, two runs; "
+                   "test = content hash, see seen[]"}
+            run_.verd = "".join(a for _, _, a in run_.seen)
+            make_oracle_c13(lambda ctx, run, f=step["f"]: f)(ck, ctx, run_)
     return ck.finish(level="proof", rule=RULE, assumptions=[
         "reading of 'partner' fixed in DESIGN.md 4/C13: the running balance must not dip below zero"])
